@@ -375,6 +375,9 @@ def replay_cmp(repo, fns, workdir, log, binary=None):
         return None
     vals = [v for v in FMIX if not (isinstance(v, int) and abs(v) > 2**200)] + [2**55 - 1, -2**55 - 1, 2**62, 9007199254740993,
             0.75, 0.7500000000000001, Fraction((9 * 2**52 + 3) * 2**60 + 1, 3 * 2**114), Fraction(2**107 + 2**54 + 1, 2**108), 0.5000000000000001]
+    if any(str(f_).startswith("lemma_dashu") for f_ in fns):
+        # the obligation is about converting a RATIONAL to a double: floats against rationals only
+        vals = [v for v in vals if isinstance(v, (float, Fraction))]
     todo = []
     for a in vals:
         for b in vals:
